@@ -604,8 +604,24 @@ func (c *client) Send(req *simpleRequest) {
 	select {
 	case <-c.quit:
 		req.SetResponse(newError(backendExited))
+		return
 	default:
-		c.pendingReqs <- req
+	}
+
+	// don't block on a full queue of a client which has quit.
+	select {
+	case <-c.quit:
+		req.SetResponse(newError(backendExited))
+		return
+	case c.pendingReqs <- req:
+	}
+
+	// The client could quit and drain the queues between the check and the
+	// enqueue above, nobody would answer the request then.
+	select {
+	case <-c.quit:
+		c.drainRequests()
+	default:
 	}
 }
 
